@@ -36,6 +36,7 @@ class Contract:
         self.ghost_pre = d.get("ghost_pre", {})        # name -> expr, evaluated in the pre-state, usable in ensures
         self.param_assume = d.get("assume_params", True)
         self.ghost_code = list(d.get("ghost_code", []))     # [(statement prefix, [(ghost name, index text | None, value text)])]
+        self.closures = dict(d.get("closures", {}))          # contracts of nested functions: name -> {sorts, requires, ensures}
         self.comp_loops = dict(d.get("comp_loops", {}))       # loop contracts for comprehensions with effects, by ordinal
         self.path_ensures = dict(d.get("path_ensures", {}))   # name -> (trace marker, clause): obligations of marked paths only
         self.reveals = list(d.get("reveals", []))           # opaque spec functions whose definition this proof may open
